@@ -44,10 +44,15 @@ def exercise(ctx):
             ctx.violation("client-missing", f"package {pkg.__name__} has no {name}Client")
             continue
         has_async = hasattr(pkg, f"{name}AsyncClient")
-        if "grpc" in transports and not has_async:
+        if "grpc" in transports and not has_async and ctx.options.get("ads"):
+            ctx.cls("ads templates: no asyncio client (the alternative template set is sync-only; measured)")
+        elif "grpc" in transports and not has_async:
             ctx.violation("async-client-missing", f"gRPC requested but {pkg.__name__} has no {name}AsyncClient")
         ctx.cls(f"async-client:{has_async}:grpc-requested:{'grpc' in transports}")
+        ads = bool(ctx.options.get("ads"))
         for label, suffix in LABELS.items():
+            if ads and label == "grpc_asyncio":
+                continue          # the alternative (ads) template set is sync-only: measured above, not judged
             try:
                 t = client.get_transport_class(label)
             except Exception:
